@@ -64,6 +64,24 @@ def triples(ctx, cn, name, tb, f, paths):
     return out, pre
 
 
+def wild_match(entries, api, write, refusal):
+    """triage entries may generalise over the API member ('*') and the writing function ('*:<op>:<key>')"""
+    for e in entries:
+        if "*" not in e["api"] + e["write"]:
+            continue
+        if e["api"] != "*" and e["api"] != api:
+            continue
+        w = e["write"]
+        if w.startswith("*"):
+            if not write.endswith(w[1:]):
+                continue
+        elif w != write:
+            continue
+        if e["refusal"] == refusal:
+            return e
+    return None
+
+
 def load(path, default):
     if os.path.exists(path):
         with open(path) as fh:
@@ -123,7 +141,7 @@ def run(M, rep, tier, only=None):
             ident = "%s | %s | %s" % (key, wk, rk)
             dumped.append({"api": key, "write": wk, "refusal": rk, "params": sorted(inner_params(x)[0]),
                            "site": x.site, "write_site": w.site})
-            e = tri.get((key, wk, rk))
+            e = tri.get((key, wk, rk)) or wild_match(triage["entries"], key, wk, rk)
             if e is not None and e.get("class") in ("infeasible", "rollback"):
                 rep.ok(R1, ident, "%s: %s" % (e["class"], e.get("reason", "")))
                 continue
